@@ -192,6 +192,32 @@ func (h *hist3) checkIndexed() []Finding {
 			return h.fail("find2", fmt.Sprintf("Find(%v,%v) differs from a freshly built mesh", a, b))
 		}
 	}
+	// Find with any number of points, repeated or not, against the face list:
+	// the faces that contain every passed point.
+	for i, t := range h.list {
+		if i > 12 {
+			break
+		}
+		far := h.pool[(i*5+3)%len(h.pool)]
+		for qi, q := range [][]model3d.Coord3D{{t[0], t[1]}, {t[2], t[0], t[1]}, {t[0], t[1], t[2], t[0]},
+			{t[1], t[0], t[1], t[0]}, {t[2], t[2]}, {t[0], t[1], t[2], t[2], t[1], t[0]}, {t[0], far}, {t[0], t[1], t[2], far}} {
+			var want []*tri
+			for _, u := range h.list {
+				all := true
+				for _, p := range q {
+					if p != u[0] && p != u[1] && p != u[2] {
+						all = false
+					}
+				}
+				if all {
+					want = append(want, u)
+				}
+			}
+			if got := h.real.Find(q...); !samePtrSet(got, want) {
+				return h.fail("findn", fmt.Sprintf("Find with %d points (query shape %d) returned %d faces, %d current faces contain all of them", len(q), qi, len(got), len(want)))
+			}
+		}
+	}
 	for i, t := range h.list {
 		if i > 24 {
 			break
